@@ -123,11 +123,7 @@ def loop_report(ctx, b, ev, res):
                     tgt = arm_vals.get(failv, t["otherwise"])
                     edge_tok.setdefault((x, tgt), set()).add("failed-cas")
                 # wait on marker: comparison with REMOVED, true edge
-                if tag(c) == "cmp" and c[1] in ("Eq", "Ne") and (is_removed(c[2]) or is_removed(c[3])):
-                    truev = 1 if c[1] == "Eq" else 0
-                    tgt = arm_vals.get(truev, t["otherwise"]) if truev in arm_vals or truev == 1 else t["otherwise"]
-                    if truev == 1 and 1 not in arm_vals:
-                        tgt = t["otherwise"]
+                def wait_edge(x, tgt, c):
                     # waiting is progress only if the cycle re-reads what the marker's completion changes: a marker completes by unlinking the node
                     # from its predecessor (the node's own word then stays REMOVED for as long as its memory is allocated) or undoes the mark.  A
                     # cycle that keeps the loop-carried link it followed (the predecessor word / next offset) and re-reads only the marked node's word
@@ -161,6 +157,21 @@ def loop_report(ctx, b, ev, res):
                         stale_waits.append((x, tgt))
                     else:
                         edge_tok.setdefault((x, tgt), set()).add("wait-on-marker")
+
+                if tag(c) == "cmp" and c[1] in ("Eq", "Ne") and (is_removed(c[2]) or is_removed(c[3])):
+                    truev = 1 if c[1] == "Eq" else 0
+                    tgt = arm_vals.get(truev, t["otherwise"]) if truev in arm_vals or truev == 1 else t["otherwise"]
+                    if truev == 1 and 1 not in arm_vals:
+                        tgt = t["otherwise"]
+                    wait_edge(x, tgt, c)
+                elif tag(c) != "cmp" and failv is None:
+                    # the same test written as a pattern: `match (size, next) { (_, REMOVED) => { wait; continue } .. }` - an arm whose edge says `half == REMOVED`
+                    own = set(ev.guards(res, x, b))
+                    for tgt in sorted(set([bb_ for _, bb_ in t["arms"]] + [t["otherwise"]])):
+                        eg = [g for g in ev.guards_edge(res, x, tgt, b) if g not in own]
+                        rem = [f for f in implied_facts(eg) if f[0] == "cmp" and f[1] == "Eq" and (is_removed(f[2]) or is_removed(f[3]))]
+                        if rem:
+                            wait_edge(x, tgt, rem[0])
             # state change of a loop-carried local / a store / a successful list update
             for si, st in enumerate(b.blocks[x]["stmts"]):
                 pl = st["place"]
